@@ -1,11 +1,11 @@
 (* Correspondence for the runtime properties C02 C06 C19: what real encoding/json did with the
    compiled generated types (reflection dump) against Rt/JsonDecode.v run on the declarations
    the converter model produces for the same program. *)
-From Verif Require Import Base.Str Base.Sort Gen.Gql Gen.Directive Gen.Convert Rt.JsonDecode Corr.Convcorr.
+From Verif Require Import Base.Str Base.Sort Gen.Gql Gen.Directive Gen.Convert Rt.JsonDecode Rt.JsonEncode Corr.Convcorr.
 From Coq Require Import ZArith.
 
 Inductive rres := RErr | RPanic | ROk (v : gval).
-Record rt_obs := { ro_type : str; ro_json : jval; ro_result : rres }.
+Record rt_obs := { ro_type : str; ro_json : jval; ro_result : rres; ro_remarshal : option jval }.
 Record rt_case := { r_id : nat; r_prog : conv_case; r_obs : list rt_obs }.
 
 (* ---- normal form: zero values vanish, struct fields and object keys are sorted ---- *)
@@ -92,9 +92,26 @@ Definition obs_agrees (tm : typemap) (o : rt_obs) : bool :=
   | _, _ => false
   end.
 
+(* what json.Marshal gave for the decoded value against Rt/JsonEncode.v on the model's value *)
+Definition model_remarshal (tm : typemap) (o : rt_obs) : res jval :=
+  do v <- model_decode tm o; encode tm DFUEL (GStruct (ro_type o)) v.
+
+Definition re_agrees (tm : typemap) (o : rt_obs) : bool :=
+  match ro_remarshal o with
+  | None => true
+  | Some j =>
+      match model_decode tm o with
+      | Ok v => match encode tm DFUEL (GStruct (ro_type o)) v with
+                | Ok j' => jval_eqb (jnorm j') (jnorm j)
+                | _ => false
+                end
+      | _ => true    (* a decode disagreement is reported by obs_agrees *)
+      end
+  end.
+
 Definition rt_agrees (c : rt_case) : bool :=
   match conv_model (r_prog c) with
-  | Ok (tm, _) => forallb (obs_agrees tm) (r_obs c)
+  | Ok (tm, _) => forallb (fun o => obs_agrees tm o && re_agrees tm o) (r_obs c)
   | _ => false
   end.
 
